@@ -36,7 +36,7 @@ pub fn make_date_time_with_tz(
 /// Constructs a datetime with the timezone from a timestamp as it is written in text:
 /// a wall clock time, an UTC offset of minute precision and the timezone name.
 ///
-/// The written offset is the timezone's own offset with the seconds dropped. In the few
+/// The written offset is the timezone's own offset rounded to the minute. In the few
 /// periods in which a timezone's offset is not a whole number of minutes (local mean time)
 /// the wall clock time is what the text states exactly, so the instant is taken with the
 /// timezone's full offset.
@@ -48,8 +48,10 @@ pub fn make_date_time_from_text(
 
     let converted = make_date_time_with_tz(datetime, tz)?;
     let zone_secs = converted.offset().fix().local_minus_utc();
-    let seconds = zone_secs % 60;
-    if seconds != 0 && zone_secs - seconds == datetime.offset().local_minus_utc() {
+    // The offset as text has it: rounded to the nearest minute.
+    let rounded = zone_secs.signum() * ((zone_secs.abs() + 30) / 60) * 60;
+    let seconds = zone_secs - rounded;
+    if seconds != 0 && rounded == datetime.offset().local_minus_utc() {
         let exact = converted - chrono::Duration::seconds(seconds.into());
         if exact.offset().fix().local_minus_utc() == zone_secs {
             return Ok(exact);
